@@ -70,16 +70,49 @@ def reads_in(facts, roots, adt):
 
 
 def variant_fields_read(facts, roots, adt, variant):
+    """components of an enum variant that are read; a component that is only *bound* by the match pattern
+    (`L = &(self as V).i`) counts as read only if the bound local L is used afterwards (`_m` bindings are not reads)"""
+    from ..dataflow import uses_of_local
+
+    def field_of(p):
+        for i, e in enumerate(p[1:]):
+            if isinstance(e, list) and e[0] == "d" and e[1] == variant and i + 2 < len(p):
+                nx = p[i + 2]
+                if isinstance(nx, list) and nx[0] == "f" and nx[3] == adt:
+                    return nx[1], (i + 2 == len(p) - 1)
+        return None, False
+
     out = set()
     for r in roots:
         for b in facts.family(r):
+            bound_only = {}
+            for bi, si, p, rv, line, mac in b.assigns():
+                if rv[0] in ("ref", "ptr") and len(p) == 1:
+                    f, last = field_of(rv[-1])
+                    if f is not None and last:
+                        bound_only.setdefault(f, []).append(p[0])
+            direct = set()
             for bi, kind, p, line in all_places(b):
-                for i, e in enumerate(p[1:]):
-                    if isinstance(e, list) and e[0] == "d" and e[1] == variant and i + 2 < len(p):
-                        nx = p[i + 2]
-                        if isinstance(nx, list) and nx[0] == "f" and nx[3] == adt:
-                            # binding a field is a read only if the bound local is used afterwards
-                            out.add(nx[1])
+                f, last = field_of(p)
+                if f is not None and kind == "r":
+                    direct.add((f, bi, line))
+            for f, locs in bound_only.items():
+                if any(uses_of_local(b, l) for l in locs):
+                    out.add(f)
+            # reads that are not pattern bindings (copies, deeper projections, discriminant reads)
+            for bi, si, p, rv, line, mac in b.assigns():
+                if rv[0] in ("use", "cast") and rv[1 if rv[0] == "use" else 2][0] in ("c", "m"):
+                    f, last = field_of(rv[1 if rv[0] == "use" else 2][1])
+                    if f is not None:
+                        out.add(f)
+                elif rv[0] in ("ref", "ptr", "disc", "cfd"):
+                    f, last = field_of(rv[-1])
+                    if f is not None and not last:
+                        out.add(f)
+                    elif f is not None and last and len(p) != 1:
+                        out.add(f)
+                    elif f is not None and rv[0] == "disc":
+                        out.add(f)
     return out
 
 
